@@ -172,6 +172,12 @@ impl Project for FileBackedProject {
             }
         }
 
+        // When no file parsed there is nothing to analyze: the syntax diagnostics say
+        // what is wrong, so do not add a misleading "no content" problem without a location.
+        if all_libraries.is_empty() && !all_diagnostics.is_empty() {
+            return Err(all_diagnostics);
+        }
+
         // Do the analysis
         match analyze(&all_libraries) {
             Ok(_) => {
